@@ -2,7 +2,8 @@
 (* Spec -> code binding for C04.  TLC enumerates                              *)
 (*   coin x signature version x 1..MaxIn inputs x 0..MaxOut outputs x input   *)
 (*   index x scenario (script, code-separator offset, signatures being         *)
-(*   checked) x amount x all 256 hash types                                   *)
+(*   checked) x amount x all 256 hash types (20 for the scenarios FewHtIds,    *)
+(*   whose subject is the rewriting of a long script code)                     *)
 (* and prints, for each, the digest Sighash.tla demands as a blob (literal    *)
 (* bytes, symbolic previous-transaction ids, SHA256 / SHA256d nodes).  The     *)
 (* harness (props/c04.py) builds the same transaction from the printed table,  *)
@@ -10,7 +11,10 @@
 (* SolutionChecker computes.                                                   *)
 EXTENDS Sighash, TLC, Json
 
-CONSTANTS MaxIn, MaxOut, CoinSet, ScenarioIds
+CONSTANTS MaxIn, MaxOut, CoinSet, ScenarioIds,
+          FewHtIds      \* scenarios (long script codes) replayed with the hash types HtFew instead of all 256
+\* every base type (and two of the "other" values of the low five bits) x ANYONECANPAY x FORKID
+HtFew == {h + k : h \in {0, 1, 2, 3, 4}, k \in {0, 64, 128, 192}}
 
 FF4 == Rep(255, 4)
 Ver == LE32(2)
@@ -25,11 +29,15 @@ Amounts == << <<64, 66, 15, 0, 0, 0, 0, 0>>, <<1, 2, 3, 4, 5, 6, 7, 128>> >>
 TxOf(n, m) == Tx(Ver, SubSeq(InTab, 1, n), SubSeq(OutTab, 1, m), Lock)
 
 \* signature blobs: 9 bytes (the shortest that can parse), 72 bytes with 0xAB bytes inside,
-\* 76 bytes (the shortest whose push needs OP_PUSHDATA1)
+\* 76 bytes (the shortest whose push needs OP_PUSHDATA1); SigPad(n): n bytes, 254 <= n <= 259, as the
+\* lax DER parser accepts them without DERSIG / STRICTENC (long-form lengths, R padded with zero
+\* bytes) - 255 is the longest blob pushed with OP_PUSHDATA1, 256 the shortest that needs OP_PUSHDATA2
 SigA == <<48, 6, 2, 1, 1, 2, 1, 1, 1>>
 SigB == <<48, 69, 2, 33, 0>> \o Rep(171, 32) \o <<2, 32>> \o Rep(7, 32) \o <<129>>
 SigC == <<48, 73, 2, 36, 0, 0, 0, 0>> \o Rep(9, 32) \o <<2, 33, 0>> \o Rep(7, 32) \o <<3>>
 Sig75 == Rep(75, 75)
+SigPad(n) == <<48, 129, n - 4, 2, 129, n - 41>> \o Rep(0, n - 73) \o Rep(n % 256, 32) \o <<2, 32>> \o Rep(7, 32) \o <<1>>
+ASSUME \A n \in 254..259 : Len(SigPad(n)) = n
 P2PKH == <<118, 169>> \o PushOf([j \in 1..20 |-> j]) \o <<136, 172>>
 Seps == <<171>> \o P2PKH \o <<171, 171>> \o PushOf(<<171, 171>>) \o <<172, 171>>
 Embedded == PushOf(SigA) \o <<171>> \o PushOf(SigB) \o PushOf(SigB)
@@ -51,10 +59,23 @@ Scenarios == <<
     Scen(PushOf(Rep(5, 250)) \o <<171>> \o PushOf(SigA), 0, <<SigA>>),  \* 11 253 before, 242 after rewriting
     \* 12 blobs too short to be signatures, still removed by the interpreter: the patterns are
     \* 01 05, 00 (empty blob), 01 81 - never the number opcodes OP_5 (85) / OP_1NEGATE (79)
-    Scen(<<85, 1, 5, 0, 79, 1, 129, 85, 172>>, 0, << <<5>>, <<>>, <<129>> >>)
+    Scen(<<85, 1, 5, 0, 79, 1, 129, 85, 172>>, 0, << <<5>>, <<>>, <<129>> >>),
+    Scen(PushOf(SigPad(255)) \o PushOf(SigPad(256)) \o <<172>>, 0, <<SigPad(255), SigPad(256)>>),   \* 13 PUSHDATA2 boundary 255 / 256
+    \* 14 around both boundaries: the neighbours 74 / 77 / 254 / 257, and pushes of the boundary blobs with
+    \* the NEXT LARGER push opcode - well-formed instructions, but not the pattern: they stay
+    Scen(PushOf(Rep(74, 74)) \o <<OP_PUSHDATA1, 75>> \o Sig75 \o <<OP_PUSHDATA2, 76, 0>> \o SigC \o PushOf(Rep(77, 77))
+         \o PushOf(SigPad(254)) \o <<OP_PUSHDATA2, 255, 0>> \o SigPad(255) \o <<OP_PUSHDATA4, 0, 1, 0, 0>> \o SigPad(256)
+         \o PushOf(SigPad(257)) \o <<172>>, 0,
+         <<Rep(74, 74), Sig75, SigC, Rep(77, 77), SigPad(254), SigPad(255), SigPad(256), SigPad(257)>>)
 >>
 ASSUME \A k \in 1..Len(Scenarios) : WellFormed(Scenarios[k].script)
 ASSUME Len(Scenarios[9].script) = 252 /\ Len(Scenarios[10].script) = 253
+\* the boundary scenarios are what they claim: each push opcode on both sides of its boundary
+ASSUME /\ PushOf(Sig75)[1] = 75 /\ SubSeq(PushOf(SigC), 1, 2) = <<OP_PUSHDATA1, 76>>
+       /\ SubSeq(PushOf(SigPad(255)), 1, 2) = <<OP_PUSHDATA1, 255>>
+       /\ SubSeq(PushOf(SigPad(256)), 1, 3) = <<OP_PUSHDATA2, 0, 1>>
+       /\ DropSignatures(Scenarios[13].script, Scenarios[13].sigs) = <<172>>
+       /\ Len(DropSignatures(Scenarios[14].script, Scenarios[14].sigs)) = 2 + 75 + 3 + 76 + 3 + 255 + 5 + 256 + 1
 
 VARIABLES phase, coin, sv, n, m, i, sc, a, ht
 vars == <<phase, coin, sv, n, m, i, sc, a, ht>>
@@ -72,7 +93,7 @@ Pick == /\ phase = "tab" /\ phase' = "group"
 \* a = 0: the rule does not read the amount (legacy); the harness then tries every amount
 Case == /\ phase = "group" /\ phase' = "case"
         /\ a' \in (IF Algo(coin, sv) = "legacy" THEN {0} ELSE 1..Len(Amounts))
-        /\ ht' \in 0..255
+        /\ ht' \in (IF sc \in FewHtIds THEN HtFew ELSE 0..255)
         /\ UNCHANGED <<coin, sv, n, m, i, sc>>
         /\ LET S == Scenarios[sc]
                d == Digest(coin, sv, TxOf(n, m), i, S.script, S.begin, S.sigs,
